@@ -32,12 +32,14 @@ ASSUMPTIONS = [
 ]
 
 SITES = ["ctx", "page", "body", "defarg", "encl", "loop", "module", "import", "builtin"]
-READS = ["body", "topdef", "nested", "anonblock", "namedblock", "callbody", "ctl", "attr", "attr-multi", "filter"]
+READS = ["body", "topdef", "topdef-callbody", "nested", "anonblock", "namedblock", "callbody", "ctl", "attr", "attr-multi", "filter"]
 BODY_SCOPE_READS = {"body", "anonblock", "callbody", "ctl", "attr", "attr-multi", "filter"}
 _k = itertools.count()
 
 
 def applicable(S, r):
+    if r == "topdef-callbody":
+        r = "topdef"  # the same def, called by name from inside the body of a call with content: resolves alike
     if "defarg" in S and r not in ("topdef", "nested"):
         return False
     if "encl" in S and r != "nested":
@@ -48,6 +50,8 @@ def applicable(S, r):
 def resolve(S, r):
     """-> value string | "UNDEFINED" | None (statement does not determine)"""
     S = set(S)
+    if r == "topdef-callbody":
+        r = "topdef"
     # 1. Python local / closure bindings visible at the read site
     if r in BODY_SCOPE_READS:
         if "loop" in S:
@@ -107,6 +111,9 @@ def build(S, r):
     elif r == "topdef":
         head += '<%%def name="d(%s)">%s</%%def>' % (args, RD)
         read = "${d(%s)}" % callargs
+    elif r == "topdef-callbody":
+        head += '<%%def name="d(%s)">%s</%%def>' % (args, RD)
+        read = '<%%call expr="w()">${d(%s)}</%%call>' % callargs
     elif r == "nested":
         encl = "<%% %s = 'encl' %%>" % name if "encl" in S else ""
         head += '<%%def name="d(%s)">%s<%%def name="inner()">%s</%%def>${inner()}</%%def>' % (args, encl, RD)
@@ -405,6 +412,9 @@ STATEMENT_FORMS = {
     "def-kwonly-default-same-name": "def _f(*, V=V):\n    return V\nout = _f()",
     "lambda-default-same-name": "out = (lambda V=V: V)()",
     "nested-default-outer-param": "def _g(_p):\n    def _h(_p=V):\n        return _p\n    return _h()\nout = _g(1)",
+    "fn-lambda-then-binding": "def _f():\n    _k = lambda z: z\n    V = 'local'\n    return _k(V)\nout = _f() + V",
+    "fn-nested-def-then-for": "def _f():\n    def _g():\n        return 1\n    for V in ['x']:\n        pass\n    return V * _g()\nout = _f() + V",
+    "fn-lambda-then-import": "def _f():\n    _k = (lambda: 0)()\n    import os.path as V\n    return V.sep\nout = _f() + V",
     "def-body": "def _f():\n    return V\nout = _f()",
     "def-default": "def _f(a=V):\n    return a\nout = _f()",
     "def-kwonly-default": "def _f(*, a=V):\n    return a\nout = _f()",
